@@ -55,6 +55,10 @@ ModuleListsOK(W, o) ==
   /\ o.mlists[2][1] = "ok" /\ Ents(o.mlists[2][2]) = SensesOf(W) /\ NoDup(o.mlists[2][2])
   /\ o.mlists[3][1] = "ok" /\ Ents(o.mlists[3][2]) = SynsetsOf(W) /\ NoDup(o.mlists[3][2])
 
+\* RT rows: <<kind, query, owner, id, via search A, via listing A, via search B, via listing B>>:
+\* an entity found by a form search reports what the same entity reports when it was listed
+RouteOK(t) == t[5] = t[6] /\ t[7] = t[8]
+
 (* ---- navigation (C10) ---------------------------------------------------- *)
 \* the scope in which an identifier of entity x may be resolved
 ScopeOf(W, x) == IF W.default THEN Family(W.T, W.I, x[1]) ELSE W.S
@@ -298,7 +302,7 @@ ObsFails(r, T, inst, o) ==
       R1(t) == SynsetRelOK(W, t)   R2(t) == SynsetClosureOK(W, t)  R3(t) == NamedRelOK(W, t)
       R4(t) == SenseRelOK(W, t)    R6(t) == NotesSynOK(W, t)
       R5(t) == \A a \in Rng(t[7]) : SenseSynRelOK(W, t, a) \/ DevRelatedSynsetsNoArgs(W, t, a)
-      L1(t) == LookupOK(W, t)
+      L1(t) == LookupOK(W, t)     L2(t) == RouteOK(t)
       X1(t) == OwnFirst(W, t)      X2(t) == PlaceholderOK(W, t)    X3(t) == HypPathsOK(W, t)
   IN
   (IF G(r, "ctor") THEN Cl(CtorOK(T, inst, o), "Constructor", o) ELSE {})
@@ -306,6 +310,7 @@ ObsFails(r, T, inst, o) ==
      (IF G(r, "ctor") THEN Cl(ListsOK(W, o), "EntityLists", o) \cup Cl(DescribeOK(W, o), "Describe", o)
                            \cup Cl(ModuleListsOK(W, o), "ModuleLevelLists", o) ELSE {})
      \cup (IF G(r, "ctor") \/ G(r, "nav") THEN Rows(Rng(o.LK), L1, "LookupById", o) ELSE {})
+     \cup Rows(Rng(o.RT), L2, "RouteIndependent", o)
      \cup (IF G(r, "nav") THEN Rows(Rng(o.S), N1, "SenseNavigation", o)
                               \cup Rows(Rng(o.W), N2, "WordNavigation", o)
                               \cup Rows(Rng(o.Y), N3, "SynsetNavigation", o)
